@@ -1,0 +1,35 @@
+//go:build verif
+
+package calcium
+
+import (
+	"context"
+
+	"github.com/projecteru2/core/store"
+	"github.com/projecteru2/core/types"
+)
+
+// Accessors for the verification harness of the lock group (C18-C21); build tag `verif` only.
+
+// VerifLockSetStore replaces the store (the harness wraps it to record CreateLock/Lock/Unlock).
+func (c *Calcium) VerifLockSetStore(s store.Store) { c.store = s }
+
+// VerifLockFilterNodes exposes filterNodes.
+func (c *Calcium) VerifLockFilterNodes(ctx context.Context, nf *types.NodeFilter) ([]*types.Node, error) {
+	return c.filterNodes(ctx, nf)
+}
+
+// VerifLockWithNodesPodLocked exposes withNodesPodLocked.
+func (c *Calcium) VerifLockWithNodesPodLocked(ctx context.Context, nf *types.NodeFilter, f func(context.Context, map[string]*types.Node) error) error {
+	return c.withNodesPodLocked(ctx, nf, f)
+}
+
+// VerifLockWithNodesOperationLocked exposes withNodesOperationLocked.
+func (c *Calcium) VerifLockWithNodesOperationLocked(ctx context.Context, nf *types.NodeFilter, f func(context.Context, map[string]*types.Node) error) error {
+	return c.withNodesOperationLocked(ctx, nf, f)
+}
+
+// VerifLockWithWorkloadsLocked exposes withWorkloadsLocked.
+func (c *Calcium) VerifLockWithWorkloadsLocked(ctx context.Context, ignoreLock bool, ids []string, f func(context.Context, map[string]*types.Workload) error) error {
+	return c.withWorkloadsLocked(ctx, ignoreLock, ids, f)
+}
